@@ -76,6 +76,9 @@ structure Oracles where
   quic : Bytes → Option Bytes
   /-- `filepath.Join(dataDir, "userfilters", "*")` -/
   ufPattern : Bytes
+  /-- what yaml.v3 reads back after encoding a value that is not a generic
+      scalar (`3.0` is written as `3` and read back as an int) -/
+  rt : Nat → Bytes → Option YVal
 
 /-! ### Keys and constants (byte lists, so that the kernel never sees `String`) -/
 
@@ -928,6 +931,7 @@ def reparse (o : Oracles) : YVal → Option YVal
   | .dur n => (o.fmtDays n).map .str
   | .strs xs => some (.arr (xs.map .str))
   | .umode s => some (.str s)
+  | .opaque k p => o.rt k p
   | v => some v
 def reparseList (o : Oracles) : List YVal → Option (List YVal)
   | [] => some []
@@ -960,7 +964,9 @@ inductive Outcome
 def migrate (o : Oracles) (parsed : Option YVal) (target : Nat) : Outcome :=
   match parsed with
   | none => .err .parse 0
-  | some doc =>
+  | some doc0 =>
+    -- `if diskConf == nil { diskConf = yobj{} }`: a null document is an empty one
+    let doc := match doc0 with | .null => .obj [] | d => d
     let c := fieldVal .int doc kSchemaVersion
     if c.err then .err .type 0 else
     let cur := intOf c.v
